@@ -45,34 +45,67 @@ def run(ctx):
     loops = [(n, table_loop(ctx, lost, n)) for n in cf.nodes if n.kind == "for"]
     loops = [(n, tl) for n, tl in loops if tl is not None and tl["table"] == "self.requests"]
     need(len(loops) >= 1, "loop over the request table not found in _connectionLost")
-    lp, tl = loops[0]
-    r.check(len(loops) == 1, "%s#single-pass" % lost.qname, "the request table is walked %d times in the loss handler" % len(loops), where(lost, lp.stmt),
-            "entries are dropped / marked unsent in different passes: one of them can run after the reconnect")
-    r.check(tl["copy"], "%s#iterates-copy" % lost.qname,
-            "loss handler iterates the live table while deleting from it", where(lost, lp.stmt),
-            "RuntimeError / skipped entries: some unanswered requests are never re-sent")
-    clr = [n for n in cf.nodes if node_assign_value(n, "proto") is not None]
-    r.check(bool(clr) and cf.dominates([clr[0].id], lp.id), "%s#proto-cleared-first" % lost.qname,
-            "the dead connection is not cleared before requests are re-queued", where(lost, lost.node),
-            "requests written to a dead connection and never re-sent")
-    v = tl["val"]
-    # the entry removed is the one being looked at: keyed by the loop's key, or by the entry's own correlation id
-    own_key = {tl["key"], "%s.correlationId" % v} - {None, "None.correlationId"}
-    dels = [n for n, k in table_deletes(ctx, lost, cf, "self.requests") if norm(k) in own_key]
-    marks = [n for n in cf.nodes if v and n.kind == "stmt" and isinstance(n.stmt, ast.Assign) and norm(n.stmt.targets[0]) == "%s.sent" % v]
-    ok = (v is not None and len(dels) == 1 and len(marks) == 1 and ("%s.cancelled is None" % v, False) in fl[dels[0].id]
-          and ("%s.cancelled is None" % v, True) in fl[marks[0].id] and norm(marks[0].stmt.value) == "None")
-    r.check(ok, "%s#drop-cancelled-mark-others" % lost.qname,
-            "cancelled entries are not dropped / other entries are not marked unsent under the right condition",
-            where(lost, lp.stmt), "cancelled requests are re-sent, or unanswered ones are not")
-    recon = [n for n in cf.nodes if any(call_name(c) == "_connect" and call_recv(c) == "self" for c in n.calls())]
-    r.check(bool(recon) and bool(marks) and not any(m.id in cf.reach([x.id]) for m in marks for x in recon), "%s#marked-before-reconnect" % lost.qname,
-            "requests are marked unsent after the reconnect is started", where(lost, lost.node),
-            "an endpoint whose connect() completes synchronously sends the queue while entries still look sent: nothing is re-sent")
-    body = [t for t, lab in cf.succ[lp.id] if lab == ("iter", True)]
-    r.check(bool(body) and lp.id not in cf.reach(body, avoid=[n.id for n in dels + marks]) and body[0] != lp.id,
-            "%s#body-exhaustive" % lost.qname, "an entry can pass the loss handler untouched", where(lost, lp.stmt),
-            "entry keeps `sent` set: never re-sent, never answered")
+    # two-pass form: the cancelled entries are collected (ids filtered by `cancelled is not None`) and deleted, then every
+    # remaining entry is marked unsent - the same partition of the table as the one-pass if/else, as long as both passes
+    # come before anything is re-sent
+    from ..cfg import cond_atoms as _ca
+    recon0 = [n for n in cf.nodes if any(call_name(c) == "_connect" and call_recv(c) == "self" for c in n.calls())]
+    two = None
+    for nm_, elt_, src_, tgt_, conds_ in filtered_collects(lost):
+        if not (isinstance(tgt_, ast.Name) and norm(src_) in ("self.requests.values()", "list(self.requests.values())") and norm(elt_) == "%s.correlationId" % tgt_.id):
+            continue
+        if len(conds_) != 1 or ("%s.cancelled is None" % tgt_.id, False) not in _ca(conds_[0], True):
+            continue
+        dl_ = [n for n in cf.nodes if n.kind == "for" and norm(n.stmt.iter) == nm_]
+        if len(dl_) != 1:
+            continue
+        dbody = cf.reach([t for t, lab in cf.succ[dl_[0].id] if lab == ("iter", True)], avoid=[dl_[0].id], include_src=True)
+        dels_ = [n for n, k in table_deletes(ctx, lost, cf, "self.requests") if n.id in dbody and norm(k) == unparse(dl_[0].stmt.target)]
+        for mn, mtl in loops:
+            if not mtl["val"]:
+                continue
+            mbody = cf.reach([t for t, lab in cf.succ[mn.id] if lab == ("iter", True)], avoid=[mn.id], include_src=True)
+            sets_ = [cf.nodes[i] for i in mbody if cf.nodes[i].kind == "stmt" and isinstance(cf.nodes[i].stmt, ast.Assign) and
+                     norm(cf.nodes[i].stmt.targets[0]) == "%s.sent" % mtl["val"] and norm(cf.nodes[i].stmt.value) == "None"]
+            uncond = bool(sets_) and not [t for t, lab in cf.control_deps_transitive(sets_[0].id, within=mbody) if t.kind == "test"]
+            if len(dels_) == 1 and uncond and mn.id in cf.reach([dl_[0].id]) and dl_[0].id not in cf.reach([mn.id]) and bool(recon0) and not any(
+                    x.id in cf.reach([rc.id]) for rc in recon0 for x in (dl_[0], mn)):
+                two = (dl_[0], mn, sets_[0])
+    if two is not None:
+        clr_ = [n for n in cf.nodes if node_assign_value(n, "proto") is not None]
+        for key_ in ("single-pass", "iterates-copy", "drop-cancelled-mark-others", "body-exhaustive", "marked-before-reconnect"):
+            r.ok("%s#%s" % (lost.qname, key_), where(lost, two[0].stmt))
+        r.check(bool(clr_) and cf.dominates([clr_[0].id], two[0].id), "%s#proto-cleared-first" % lost.qname,
+                "the dead connection is not cleared before requests are re-queued", where(lost, lost.node))
+    else:
+        lp, tl = loops[0]
+        r.check(len(loops) == 1, "%s#single-pass" % lost.qname, "the request table is walked %d times in the loss handler" % len(loops), where(lost, lp.stmt),
+                "entries are dropped / marked unsent in different passes: one of them can run after the reconnect")
+        r.check(tl["copy"], "%s#iterates-copy" % lost.qname,
+                "loss handler iterates the live table while deleting from it", where(lost, lp.stmt),
+                "RuntimeError / skipped entries: some unanswered requests are never re-sent")
+        clr = [n for n in cf.nodes if node_assign_value(n, "proto") is not None]
+        r.check(bool(clr) and cf.dominates([clr[0].id], lp.id), "%s#proto-cleared-first" % lost.qname,
+                "the dead connection is not cleared before requests are re-queued", where(lost, lost.node),
+                "requests written to a dead connection and never re-sent")
+        v = tl["val"]
+        # the entry removed is the one being looked at: keyed by the loop's key, or by the entry's own correlation id
+        own_key = {tl["key"], "%s.correlationId" % v} - {None, "None.correlationId"}
+        dels = [n for n, k in table_deletes(ctx, lost, cf, "self.requests") if norm(k) in own_key]
+        marks = [n for n in cf.nodes if v and n.kind == "stmt" and isinstance(n.stmt, ast.Assign) and norm(n.stmt.targets[0]) == "%s.sent" % v]
+        ok = (v is not None and len(dels) == 1 and len(marks) == 1 and ("%s.cancelled is None" % v, False) in fl[dels[0].id]
+              and ("%s.cancelled is None" % v, True) in fl[marks[0].id] and norm(marks[0].stmt.value) == "None")
+        r.check(ok, "%s#drop-cancelled-mark-others" % lost.qname,
+                "cancelled entries are not dropped / other entries are not marked unsent under the right condition",
+                where(lost, lp.stmt), "cancelled requests are re-sent, or unanswered ones are not")
+        recon = [n for n in cf.nodes if any(call_name(c) == "_connect" and call_recv(c) == "self" for c in n.calls())]
+        r.check(bool(recon) and bool(marks) and not any(m.id in cf.reach([x.id]) for m in marks for x in recon), "%s#marked-before-reconnect" % lost.qname,
+                "requests are marked unsent after the reconnect is started", where(lost, lost.node),
+                "an endpoint whose connect() completes synchronously sends the queue while entries still look sent: nothing is re-sent")
+        body = [t for t, lab in cf.succ[lp.id] if lab == ("iter", True)]
+        r.check(bool(body) and lp.id not in cf.reach(body, avoid=[n.id for n in dels + marks]) and body[0] != lp.id,
+                "%s#body-exhaustive" % lost.qname, "an entry can pass the loss handler untouched", where(lost, lp.stmt),
+                "entry keeps `sent` set: never re-sent, never answered")
 
     # ---- R2 resend filter and order
     r = ctx.rule("R2", "resend only entries with `sent is None`, in table order; `sent` set only by the write function", 4, "A+B")
